@@ -1,3 +1,4 @@
+import GoWebdav.Spec.CarddavWire
 import Driver.Codec
 import Driver.OpsFs
 import GoWebdav.Impl.CarddavWire
@@ -82,10 +83,10 @@ def opCardEnc (args : List SExp) : Option OpResult := do
         let toks := (got.splitOn " ").filter (· ≠ "")
         match parseToks toks [[]] with
         | some [t] => (match xnTree t with
-          | some n => (match decodeQuery n with
-            | .ok (some q') => if q' = expectedQuery q then [] else [("C09", "client-query-altered-on-the-wire")]
-            | .ok none => [("C09", "client-query-altered-on-the-wire")]
-            | .error _ => [("C09", "client-emits-non-rfc-document")])
+          -- the independent strict RFC 6352 reader (Spec.CarddavWire): what is sent must be read by it, to the caller's query
+          | some n => (match GoWebdav.Spec.CarddavWire.readQuery n with
+            | some q' => if q' = expectedQuery q then [] else [("C09", "client-query-altered-on-the-wire")]
+            | none => [("C09", "client-emits-non-rfc-document")])
           | none => [("C09", "client-emits-non-rfc-document")])
         | _ => [("C09", "client-emits-non-rfc-document")]
     pure ⟨impl, judge⟩
@@ -124,15 +125,10 @@ def opCardEncMg (args : List SExp) : Option OpResult := do
       match parseToks toks [[]] with
       | some [t] => (match xnTree t with
         | some n =>
-          -- RFC 6352 §8.7: (allprop | propname | prop)?, href+ — the property request precedes the hrefs
-          let order : Bool := match n with
-            | .elem _ _ cs => (match cs.findIdx? (·.isElem nsDav "prop"), cs.findIdx? (·.isElem nsDav "href") with
-              | some i, some j => decide (i < j)
-              | _, _ => true)
-            | _ => true
-          (match decodeMultiGet unescStr n with
-            | .ok m' => (if m' = want then [] else [("C09", "multiget-altered-on-the-wire")]) ++ (if order then [] else [("C09", "multiget-child-order")])
-            | .error _ => [("C09", "client-emits-non-rfc-document")])
+          -- RFC 6352 §8.7: (allprop | propname | prop)?, href+ — read by the strict reader (order, namespaces, attributes)
+          (match GoWebdav.Spec.CarddavWire.readMultiGet unescStr n with
+            | some m' => if m' = want then [] else [("C09", "multiget-altered-on-the-wire")]
+            | none => [("C09", "client-emits-non-rfc-document")])
         | none => [("C09", "client-emits-non-rfc-document")])
       | _ => [("C09", "client-emits-non-rfc-document")]
     pure ⟨impl, judge⟩
